@@ -237,7 +237,16 @@ class Arr:
         return f"<Arr {self.kind} shape=({', '.join(map(str, self.shape))})" + (f" segs={len(self.segs)}" if self.segs else '') + ">"
 
 
-_INT_HEADS = ('N', 't', 'z', 'loop')
+_INT_HEADS_BASE = ('N', 't', 'z', 'loop')
+_INT_HEADS = _INT_HEADS_BASE
+
+
+def set_int_heads(extra=()):
+    """atom heads whose values are integers in the current world (index symbols always; the face positions too when the
+    world models integer-dtype face arrays: a scalar taken out of such an array is an integer scalar)"""
+    global _INT_HEADS
+    _INT_HEADS = tuple(_INT_HEADS_BASE) + tuple(extra)
+
 
 
 def scalar_kind(r):
@@ -611,8 +620,7 @@ def assign_index(ctx: Ctx, box: Box, key, value, lineno=None):
     key = expand_key(key, old.ndim)
     val = snap(value)
     if old.kind == 'int' and val.kind == 'real':
-        v0 = val
-        val = Arr(v0.shape, lambda idx: _trunc(v0.at(idx)), 'int', tag=v0.tag)
+        val = elementwise(ctx, _trunc, [val], kind='int', origin=val.origin)      # keeps the block structure of flat arrays
     items = []
     for k in key:
         if is_arraylike(k) or isinstance(k, list):
